@@ -723,3 +723,103 @@ pub proof fn lemma_left(o: &Compiler, e: &Compiler, b: &Compiler, f: &Compiler)
     assert(f.scopes@ =~= o.scopes@);
     lemma_gen_refl(o, f);
 }
+
+// ================= loops: the loop stack =================
+// f is o with only the current scope's loop stack replaced
+pub open spec fn only_loops_differ(o: &Compiler, f: &Compiler) -> bool {
+    others_same(o, f) && f.encoding_error == o.encoding_error && sc(f).instructions == sc(o).instructions && sc(f).last_ins == sc(o).last_ins && sc(f).prev_ins == sc(o).prev_ins
+        && sc(f).scope_depth == sc(o).scope_depth && sc(f).is_filter == sc(o).is_filter
+}
+pub proof fn lemma_loop_pushed(o: &Compiler, f: &Compiler)
+    requires cwf(o), only_loops_differ(o, f), sc(f).loop_stack@.len() == sc(o).loop_stack@.len() + 1,
+        sc(f).loop_stack@.subrange(0, sc(o).loop_stack@.len() as int) == sc(o).loop_stack@, sc(f).loop_stack@.last().break_positions@.len() == 0,
+    ensures cwf(f)
+{
+    let lo = sc(o).loop_stack@; let lf = sc(f).loop_stack@;
+    assert(swf(&sc(o)));
+    assert forall|k: int, j: int| 0 <= k < lf.len() && 0 <= j < lf[k].break_positions@.len() implies
+        starts(code(f)).contains(#[trigger] lf[k].break_positions@[j] as int) && op_at(code(f), lf[k].break_positions@[j] as int) == Opcode::Jump by {
+        if k < lo.len() { assert(lf.subrange(0, lo.len() as int)[k] == lf[k]); assert(lf[k] == lo[k]); }
+    }
+    assert(swf(&sc(f)));
+    lemma_cwf_other_scopes(o, f);
+}
+pub proof fn lemma_loop_popped(s0: &Compiler, s1: &Compiler, s3: &Compiler, s4: &Compiler)
+    requires cwf(s0), only_loops_differ(s0, s1), sc(s1).loop_stack@.len() == sc(s0).loop_stack@.len() + 1,
+        sc(s1).loop_stack@.subrange(0, sc(s0).loop_stack@.len() as int) == sc(s0).loop_stack@, sc(s1).loop_stack@.last().break_positions@.len() == 0,
+        gen(s1, s3), code(s3).len() > code(s1).len(), fresh(&sc(s3)),
+        only_loops_differ(s3, s4), sc(s4).loop_stack@ == sc(s3).loop_stack@.drop_last(),
+    ensures cwf(s4), gen_s(s0, s4),
+        forall|j: int| 0 <= j < sc(s3).loop_stack@.last().break_positions@.len() ==> {
+            let bp = #[trigger] sc(s3).loop_stack@.last().break_positions@[j];
+            is_start(s4, bp as int) && op_at(code(s4), bp as int) == Opcode::Jump && bp >= code(s0).len() }
+{
+    let l0 = sc(s0).loop_stack@; let l1 = sc(s1).loop_stack@; let l3 = sc(s3).loop_stack@; let l4 = sc(s4).loop_stack@;
+    let n = l0.len() as int;
+    assert(swf(&sc(s3)));
+    assert(l3.len() == n + 1);
+    assert forall|k: int, j: int| 0 <= k < l4.len() && 0 <= j < l4[k].break_positions@.len() implies
+        starts(code(s4)).contains(#[trigger] l4[k].break_positions@[j] as int) && op_at(code(s4), l4[k].break_positions@[j] as int) == Opcode::Jump by {
+        assert(l4[k] == l3[k]);
+    }
+    assert(swf(&sc(s4)));
+    lemma_cwf_other_scopes(s3, s4);
+    assert forall|k: int| 0 <= k < n implies lctx_ext(#[trigger] l0[k], l4[k], code(s0).len() as int) by {
+        assert(l1.subrange(0, n)[k] == l1[k]);
+        assert(lctx_ext(l1[k], l3[k], code(s1).len() as int));
+        assert(l4[k] == l3[k]);
+    }
+    assert forall|j: int| 0 <= j < s0.scope_index implies s4.scopes@[j] == s0.scopes@[j] by { assert(s4.scopes@[j] == s3.scopes@[j]); assert(s1.scopes@[j] == s0.scopes@[j]); }
+    assert(ext0(s0, s4));
+    assert(lctx_ext(l1[n], l3[n], code(s1).len() as int));
+    assert(l3.last() == l3[n]);
+    assert forall|j: int| 0 <= j < l3[n].break_positions@.len() implies {
+            let bp = #[trigger] l3[n].break_positions@[j];
+            is_start(s4, bp as int) && op_at(code(s4), bp as int) == Opcode::Jump && bp >= code(s0).len() } by {
+        assert(l1.last() == l1[n]);
+    }
+}
+// a `break` placeholder (the Jump just emitted, at `pos`) recorded in loop context k
+pub open spec fn break_recorded(o: &Compiler, f: &Compiler, k: int, pos: usize) -> bool {
+    let lo = sc(o).loop_stack@; let lf = sc(f).loop_stack@;
+    only_loops_differ(o, f) && 0 <= k < lo.len() && lf.len() == lo.len()
+        && (forall|i: int| 0 <= i < lo.len() && i != k ==> lf[i] == lo[i])
+        && lf[k].label == lo[k].label && lf[k].begin == lo[k].begin && lf[k].break_positions@ == lo[k].break_positions@.push(pos)
+}
+pub proof fn lemma_break_recorded(o: &Compiler, f: &Compiler, k: int, pos: usize)
+    requires cwf(o), code(o).len() > 0, sc(o).last_ins.position == pos, sc(o).last_ins.opcode == Opcode::Jump, break_recorded(o, f, k, pos)
+    ensures cwf(f), fresh(&sc(o)) ==> fresh(&sc(f)),
+        forall|a: &Compiler| #[trigger] gen_s(a, o) && pos >= code(a).len() ==> gen_s(a, f),
+{
+    let lo = sc(o).loop_stack@; let lf = sc(f).loop_stack@;
+    let st = starts(code(o));
+    assert(swf(&sc(o)));
+    assert(st[st.len() - 1] == pos);
+    assert forall|kk: int, j: int| 0 <= kk < lf.len() && 0 <= j < lf[kk].break_positions@.len() implies
+        st.contains(#[trigger] lf[kk].break_positions@[j] as int) && op_at(code(f), lf[kk].break_positions@[j] as int) == Opcode::Jump by {
+        if kk != k { assert(lf[kk] == lo[kk]); }
+        else if j < lo[k].break_positions@.len() { assert(lf[k].break_positions@[j] == lo[k].break_positions@[j]); }
+    }
+    assert(swf(&sc(f)));
+    lemma_cwf_other_scopes(o, f);
+    assert forall|a: &Compiler| #[trigger] gen_s(a, o) && pos >= code(a).len() implies gen_s(a, f) by {
+        let la = sc(a).loop_stack@;
+        assert forall|i: int| 0 <= i < la.len() implies lctx_ext(#[trigger] la[i], lf[i], code(a).len() as int) by {
+            assert(lctx_ext(la[i], lo[i], code(a).len() as int));
+            if i == k {
+                let x = la[i].break_positions@; let y = lo[k].break_positions@; let z = lf[k].break_positions@;
+                assert(z.subrange(0, x.len() as int) =~= y.subrange(0, x.len() as int));
+            }
+        }
+        assert forall|j: int| 0 <= j < a.scope_index implies f.scopes@[j] == a.scopes@[j] by { assert(f.scopes@[j] == o.scopes@[j]); }
+    }
+}
+#[verifier::external_body]
+pub fn loopctx_label_is(ls: &Vec<LoopContext>, k: usize, name: &String) -> (r: bool) requires k < ls@.len() { unimplemented!() }
+#[verifier::external_body]
+pub fn loopctx_push_break(ls: &mut Vec<LoopContext>, k: usize, pos: usize)
+    requires k < old(ls)@.len()
+    ensures final(ls)@.len() == old(ls)@.len(), forall|i: int| 0 <= i < old(ls)@.len() && i != k ==> final(ls)@[i] == old(ls)@[i],
+        final(ls)@[k as int].label == old(ls)@[k as int].label, final(ls)@[k as int].begin == old(ls)@[k as int].begin,
+        final(ls)@[k as int].break_positions@ == old(ls)@[k as int].break_positions@.push(pos)
+{ unimplemented!() }
